@@ -36,6 +36,8 @@ def jobs(tier):
     for shape, K in [("single", 3), ("flat2", 3), ("nested3", K3), ("order2", 3), ("flat3", K3)]:
         for P in ([16384] if tier == "quick" else [16384, 32768]):
             out.append(("e2e.%s.P%d" % (shape, P), "job_e2e", dict(shape=shape, P=P, K=K, order="symbolic", progress=0)))
+    out.append(("e2e.second-create-after-nested-add", "job_second", dict(P=16384, K=2)))
+    out.append(("e2e.hidden2.P16384", "job_e2e", dict(shape="hidden2", P=16384, K=2, order="reversed", progress=0)))
     out.append(("e2e.dir1.P16384", "job_e2e", dict(shape="dir1", P=16384, K=3, order="reversed", progress=0)))
     out.append(("e2e.case2.P16384", "job_e2e", dict(shape="case2", P=16384, K=2, order="symbolic", progress=0)))
     out.append(("e2e.flat2.P32768.prog1", "job_e2e", dict(shape="flat2", P=32768, K=2, order="reversed", progress=1)))
@@ -122,6 +124,31 @@ def job_e2e(E, shape, P, K, order, progress, _mutants=None):
     _witness(E, [sizes[r] for r in SHAPES[shape]], Pn)
 
 
+def job_second(E, P, K, _mutants=None):
+    """The property holds for every creation: create, add a file below a
+    sub-directory (the root's own entries do not change), create again in the
+    same process."""
+    from symx.afs import AFS
+    shape = "grown3"
+    rels = SHAPES[shape]
+    fs = AFS(order="reversed")
+    sizes = {r: E.int("s%d" % i, 0, K * P) for i, r in enumerate(rels)}
+    E.note("shape", shape)
+    from symx.core import disj
+    E.assume(disj(sizes[rels[0]] > 0, sizes[rels[1]] > 0))
+    for i, r in enumerate(rels[:2]):
+        fs.add("/data/" + r, ("f", i), sizes[r])
+    w = World(fs, mutants=_mutants)
+    try:
+        cr.create(w, "1", path="/data/name", piece_length=P, progress=0)
+        fs.add("/data/" + rels[2], ("f", 2), sizes[rels[2]])
+        t = cr.create(w, "1", path="/data/name", piece_length=P, progress=0)
+    except Exception as ex:  # noqa: BLE001
+        E.fail("C01.no-exception", "%s: %s" % (type(ex).__name__, ex))
+        return
+    oracle_v1(E, t.meta["info"], fs, "/data", sizes, P, shape, tag="C01.second")
+
+
 def job_hasher_symP(E, n, K, _mutants=None):
     """Hasher driven directly with a fully symbolic piece length (v1 hashing never
     divides by P, so all terms stay linear): covers every piece length."""
@@ -168,6 +195,26 @@ def _conc_run(params, model, workdir, seed):
         NoProg = mods["torrentfile.mixins"].ProgMixin.NoProg
         got = b"".join(bytes(x) for x in H.Hasher(paths, P, progress=0, progress_bar=NoProg()))
         return [] if got == refconc.v1_pieces(b"".join(datas), P) else ["C01.hasher.pieces"]
+    if "shape" not in params:
+        shape, P = "grown3", params["P"]
+        rels = SHAPES[shape]
+        sizes = cr.concrete_sizes(shape, model)
+        data = {r: refconc.content(("f", i), sizes[r], seed) for i, r in enumerate(rels)}
+        for r in rels[:2]:
+            refconc.write_file(os.path.join(workdir, "data", r), data[r])
+        root = os.path.join(workdir, "data", "name")
+        mods = cr.real_torrentfile()
+        T = mods["torrentfile.torrent"]
+        import io
+        import contextlib
+        try:
+            with contextlib.redirect_stdout(io.StringIO()):
+                T.TorrentFile(path=root, piece_length=P, progress=0)
+                refconc.write_file(os.path.join(workdir, "data", rels[2]), data[rels[2]])
+                t = T.TorrentFile(path=root, piece_length=P, progress=0)
+        except Exception as ex:  # noqa: BLE001
+            return ["C01.no-exception: %s" % ex]
+        return ["C01.second." + b for b in cr.conc_v1(t.meta["info"], root, data, P, sorted(rels))]
     shape, P = params["shape"], params["P"]
     Pn = P if (P and P > 30) else (2 ** P if P else 16384)
     sizes = cr.concrete_sizes(shape, model)
